@@ -374,18 +374,18 @@ impl State {
     }
 
     // what a build may leave behind: remember it on entry
-    fn build_mark(&mut self) -> (usize, usize, usize) {
+    fn build_mark(&mut self) -> (usize, usize, usize, usize) {
         if self.nested.is_empty() && self.last_error.as_ref().map_or(false, |e| e.runtime) {
             // a program that failed at run time is not resumed by later sources
             self.ctx.ip = self.code_origin();
         }
-        (self.nested.len(), self.input.len(), self.data_stack.len())
+        (self.nested.len(), self.input.len(), self.data_stack.len(), self.sources.len())
     }
 
     // a rejected source has no effect: drop its unread text, pending flows,
     // half-built code and definitions, and return to the enclosing context
-    fn build_abort(&mut self, mark: (usize, usize, usize)) {
-        let (depth, inputs, ds_len) = mark;
+    fn build_abort(&mut self, mark: (usize, usize, usize, usize)) {
+        let (depth, inputs, ds_len, sources) = mark;
         if self.nested.len() <= depth {
             // the source was built, it failed while running: halt it
             self.ctx.ip = self.code_origin();
@@ -393,6 +393,7 @@ impl State {
         }
         let ctx = self.nested.get(depth + 1).cloned().unwrap_or_else(|| self.ctx.clone());
         self.input.truncate(inputs);
+        self.sources.truncate(sources);
         self.flow_stack.truncate(ctx.fs_len);
         self.code.truncate(ctx.cs_len);
         self.debug_map.truncate(ctx.cs_len);
